@@ -124,18 +124,25 @@ class Result(object):
 
 
 def run(symbols, comments=(), nsname='Foo', version='1.0', identifier_prefixes=None, symbol_prefixes=None,
-        accept_unprefixed=False, passes=True, warnings=True, dump=None, includes=()):
+        accept_unprefixed=False, passes=True, warnings=True, dump=None, includes=(), shared_libraries=None, c_includes=(),
+        packages=()):
     """comments: list of (text, filename, lineno). Returns Result with .xml, .log, .warning_count, .root"""
     message.MessageLogger._instance = None
     ns = ast.Namespace(nsname, version, identifier_prefixes=identifier_prefixes, symbol_prefixes=symbol_prefixes)
     out = io.StringIO()
     logger = message.MessageLogger.get(namespace=ns, output=out)
     logger.enable_warnings(warnings)
+    if shared_libraries is not None:
+        ns.shared_libraries = list(shared_libraries)
+    for c in c_includes:
+        ns.c_includes.append(c)
+    for pk in packages:
+        ns.exported_packages.append(pk)
     tr = Transformer(ns, accept_unprefixed=accept_unprefixed)
     if includes:
         tr.set_include_paths([STUBGIR])
     for inc in includes:
-        tr.register_include(ast.Include(inc, '2.0') if isinstance(inc, str) else inc)
+        tr.register_include(ast.Include(inc, '1.0' if inc in ('Mid', 'Base') else '2.0') if isinstance(inc, str) else inc)
     blocks = GtkDocCommentBlockParser().parse_comment_blocks(list(comments))
     tr.parse([sym(s) if not isinstance(s, SourceSymbol) else s for s in symbols])
     if dump is not None:
